@@ -398,7 +398,17 @@ def rule_u11(repo):
     # inside unify: the representatives are looked up (uf[..]) before any call of union
     u = top.nested['unify']
     cfg = cfg_of(u.node)
-    looks = [n for n in cfg.nodes if n.kind == 'stmt' and isinstance(n.ast, ast.Assign) and isinstance(n.ast.value, ast.Subscript) and is_name(n.ast.value.value, 'uf')]
+    def reads_uf(e):
+        # `uf[..]` itself, or a call of a sibling helper that returns `uf[..]`
+        for x in ast.walk(e):
+            if isinstance(x, ast.Subscript) and is_name(x.value, 'uf'):
+                return True
+            if isinstance(x, ast.Call) and isinstance(x.func, ast.Name) and x.func.id in top.nested and x.func.id not in ('unify', 'union') and \
+                    any(isinstance(r, ast.Return) and r.value is not None and any(isinstance(y, ast.Subscript) and is_name(y.value, 'uf') for y in ast.walk(r.value))
+                        for r in ast.walk(top.nested[x.func.id].node)):
+                return True
+        return False
+    looks = [n for n in cfg.nodes if n.kind == 'stmt' and isinstance(n.ast, ast.Assign) and reads_uf(n.ast.value)]
     res.add('%s :: type_infer :: union-called-from-unify-only' % INFER, not outside and bool(looks),
             '%d call(s), all inside unify, which reads the representatives from uf first' % n_calls if not outside and looks else
             ('line %d: `%s` is called from %s: the type variable it is handed need not be the representative of its class any more, union then joins nothing and '
